@@ -23,6 +23,8 @@ CLASSES = ['Device', 'PVDevice', 'CDevice', 'CDevice2', 'CDevice2', 'IDevice', '
 P_CORNER_IDEV = 0.04
 P_CORNER_SDEV = 0.04
 P_PROBE = 0.10
+P_SET0 = 0.10      # built with another value -> deriv -> setter
+P_ALIAS = 0.07     # caller-owned parameter arrays edited in place after construction
 L = lambda v: [fs(x) for x in v]
 
 
@@ -227,6 +229,95 @@ def gen_probe(rng, tier, name):
   return d, ['outside:' + name]
 
 
+# ------------------------------------------------------------------ glue variants: assignment after construction, caller-owned arrays
+SETTABLE = {'SDevice': ['sustainment', 'sustainment', 'sustainment', 'efficiency', 'c3', 'capacity', 'start', 'damage_depth'], 'CDevice': ['a', 'b']}
+# (IDevice / IDevice2 / CDevice2 / TDevice keep the cost object built at construction: their stale-after-setter behaviour is C11's open finding)
+
+
+def gen_set0(rng, tier):
+  """the device is BUILT with another value of one scalar parameter, asked for its marginal cost once, then the parameter is
+  assigned through its public setter: the accepted parameterisation is the final one and its cost / marginal cost must be
+  convex / monotone."""
+  cls = rng.choice(['SDevice', 'SDevice', 'SDevice', 'CDevice'])
+  d, bnd = gen_dev(rng, tier, cls)
+  while cls == 'SDevice' and d['n'] < 3 and rng.random() < 0.8:
+    d, bnd = gen_dev(rng, tier, cls)
+  p = d['prm']
+  if cls == 'SDevice':
+    # the deep-discharge term active in SOME slots only: shallow damage depth, (nearly) full start
+    p.update({'c3': rng.choice(['2', '4', '10']), 'c1': rng.choice(['1/64', '1/4', '1']), 'damage_depth': rng.choice(['1/8', '1/8', '1/4', '1/2']),
+              'start': rng.choice(['1/2', '3/4', '1', '1']), 'capacity': fs(dy(rng, 4, 12))})
+    if F(p['c2']) > F(p['c1']):
+      p['c2'] = p['c1']
+  k = rng.choice(SETTABLE[cls])
+  if cls == 'CDevice':
+    v0 = fs(dy(rng, -3, 0)) if k == 'a' else fs(dy(rng, -2, 2))
+  elif k == 'sustainment':
+    v0 = rng.choice(['1', '1/2', '3/4', '7/8', '1/4'])
+  elif k == 'efficiency':
+    v0 = rng.choice(['1', '1/2', '3/4', '7/8'])
+  elif k == 'c3':
+    v0 = rng.choice(['0', '1', '3'])
+  elif k == 'capacity':
+    v0 = fs(F(p['capacity']) + dy(rng, Fraction(1, 2), 6))
+  else:
+    v0 = rng.choice(['0', '1/4', '1/2', '3/4', '1'])
+  return d, bnd + ['set0:' + k], ({k: v0} if v0 != p[k] else None)
+
+
+ALIAS_PARAMS = {'IDevice': ['a', 'b', 'c'], 'IDevice2': ['p_l', 'p_h'], 'GDevice': ['cost_coeffs'], 'TDevice': ['t_external', 'c'], 'CDevice2': [], 'SDevice': []}
+
+
+def gen_alias(rng, tier):
+  """vector parameters and bounds are handed over as numpy arrays the CALLER keeps; after construction the caller edits one of
+  its arrays in place.  The accepted device must be unaffected (compare with a fresh twin built from the original values)."""
+  cls = rng.choice(['IDevice', 'IDevice2', 'IDevice2', 'GDevice', 'TDevice', 'CDevice2', 'SDevice'])
+  while True:
+    d, bnd = gen_dev(rng, tier, cls)
+    if b_is_int(d):
+      break
+  n = d['n']; p = d['prm']
+  for k in ALIAS_PARAMS[cls]:
+    if k != 'cost_coeffs' and not isinstance(p[k], list):
+      p[k] = [p[k]]*n            # the same values, per slot
+  names = ALIAS_PARAMS[cls] + (['bounds'] if (d['_py'].get('bform') == 'table' or n == 2) else ['lb', 'hb'])
+  k = rng.choice(ALIAS_PARAMS[cls]*3 + names)
+  op = {'p_h': ('add', '-7'), 'p_l': ('add', '-7'), 'b': ('add', '1'), 'a': ('mul', '0'), 't_external': ('add', '10')}.get(k, rng.choice([('mul', '-1'), ('add', '3')]))
+  d['_py']['bform'] = 'table' if 'bounds' in names else 'pair'
+  return d, bnd + ['alias:' + k], {'param': k, 'op': op[0], 'v': op[1]}
+
+
+def alias_build(d):
+  """the device of `d` with every vector parameter / the bounds given as numpy arrays; returns (device, {name: that array})."""
+  n_ = np(); dk = C.repo(); p = d['prm']; cls = d['cls']; n = d['n']
+  bufs = {}
+  def A(name, v):
+    bufs[name] = n_.array(build.jf(v), dtype=float)
+    return bufs[name]
+  V = lambda name: A(name, p[name]) if isinstance(p[name], list) else C.pf(p[name])
+  if d['_py'].get('bform') == 'table' or n == 2:
+    b = A('bounds', [[lo, hi] for lo, hi in zip(d['lb'], d['hb'])])
+  else:
+    b = (A('lb', d['lb']), A('hb', d['hb']))
+  cb = build.py_cbounds(d)
+  if cls == 'IDevice':
+    dev = dk.IDevice('idevice', n, b, cb, a=V('a'), b=V('b'), c=V('c'))
+  elif cls == 'IDevice2':
+    dev = dk.IDevice2('idevice2', n, b, cb, p_l=V('p_l'), p_h=V('p_h'))
+  elif cls == 'CDevice2':
+    dev = dk.CDevice2('cdevice2', n, b, cb, p_l=C.pf(p['p_l']), p_h=C.pf(p['p_h']))
+  elif cls == 'GDevice':
+    dev = dk.GDevice('gdevice', n, b, cb, cost_coeffs=A('cost_coeffs', p['cost_coeffs']))
+  elif cls == 'SDevice':
+    dev = dk.SDevice('sdevice', n, b, cb, **{k: C.pf(v) for k, v in p.items() if k != 'rate_clip'})
+  elif cls == 'TDevice':
+    dev = dk.TDevice('tdevice', n, b, C.pf(p['sustainment']), C.pf(p['efficiency']), C.pf(p['t_init']), C.pf(p['t_optimal']), C.pf(p['t_range']),
+                     A('t_external', p['t_external']), c=V('c'), cbounds=cb)
+  else:
+    raise ValueError('no aliasing builder for ' + cls)
+  return dev, bufs
+
+
 def gen_pair(rng, d):
   lb = [F(x) for x in d['lb']]; hb = [F(x) for x in d['hb']]
   for _ in range(8):
@@ -273,7 +364,10 @@ class C07(Prop):
           'and next to the validator thresholds (b = 1, 1+1/64, non-integer b; p_l = p_h; c2 = c1, c1-1/64; efficiency 1, 63/64, 1/64; '
           'active shortfall term; t_range = 0; zero-width slots; convex generator / ADevice polynomials; thermal in any direction), plus '
           'the two accepted non-convex corners and probes just outside each validator; non-trivial: distinct pair differing in a '
-          'non-zero-width slot, a non-linear cost and a validator-boundary parameter')
+          'non-zero-width slot, a non-linear cost and a validator-boundary parameter.  Glue variants: storage / CDevice built with another value of one '
+          'parameter, asked for deriv, then re-assigned through the setter (chord + monotone marginal cost on that object, T2 against the final '
+          'description); vector parameters / bounds handed over as caller-owned numpy arrays that the caller edits in place afterwards (cost / deriv / '
+          'bounds vs a fresh twin built from the original values; oracle only)')
   sizes = {'quick': 1500, 'thorough': 40000}
   assumptions = ['oracle tolerance 1e-9 x max(1, |cost|, |deriv|.|x-y|); non-integer exponents are outside the rational model (oracle only)',
                  'cases whose constructor raises ValueError are vacuous for C07 (counted in rejected_by_validator)']
@@ -287,7 +381,7 @@ class C07(Prop):
   def cases(self, rng, tier, count):
     out = []
     for _ in range(count):
-      q = rng.random()
+      q = rng.random(); extra = {}
       if q < P_CORNER_IDEV:                       # ---- known non-convex corner 1 (kept apart from everything else)
         d, bnd = gen_dev(rng, tier, 'IDevice', corner=True); branch = 'corner:IDevice.b_lt1'
       elif q < P_CORNER_IDEV + P_CORNER_SDEV:     # ---- known non-convex corner 2
@@ -295,10 +389,16 @@ class C07(Prop):
       elif q < P_CORNER_IDEV + P_CORNER_SDEV + P_PROBE:
         name = rng.choice(PROBES)
         d, bnd = gen_probe(rng, tier, name); branch = 'probe:' + name
+      elif q < P_CORNER_IDEV + P_CORNER_SDEV + P_PROBE + P_SET0:
+        d, bnd, set0 = gen_set0(rng, tier); branch = 'std'
+        if set0: extra['set0'] = set0
+      elif q < P_CORNER_IDEV + P_CORNER_SDEV + P_PROBE + P_SET0 + P_ALIAS:
+        d, bnd, al = gen_alias(rng, tier); branch = 'std'
+        extra['alias'] = al
       else:
         d, bnd = gen_dev(rng, tier, rng.choice(CLASSES)); branch = 'std'
       x, y, th = gen_pair(rng, d)
-      out.append({'dev': d, 'x': x, 'y': y, 'p': gen.gen_price(rng, d['n']), 'thetas': th, 'branch': branch, 'bnd': bnd})
+      out.append(dict({'dev': d, 'x': x, 'y': y, 'p': gen.gen_price(rng, d['n']), 'thetas': th, 'branch': branch, 'bnd': bnd}, **extra))
     return out
 
   def corpus(self):
@@ -333,6 +433,22 @@ class C07(Prop):
   def build(self, case):
     """the device, or None when the constructor rejects the parameters (vacuous)."""
     try:
+      if case.get('alias'):
+        dev, bufs = alias_build(case['dev'])
+        a = case['alias']; buf = bufs[a['param']]
+        if a['op'] == 'mul': buf *= C.pf(a['v'])
+        else: buf += C.pf(a['v'])
+        return dev
+      if case.get('set0'):
+        d = case['dev']; d0 = dict(d); d0['prm'] = dict(d['prm']); d0['prm'].update(case['set0'])
+        try:
+          dev = build.build_leaf(d0)
+          dev.deriv(build.arr(case['x']).astype(float), 0)
+          for k in case['set0']:
+            setattr(dev, k, C.pf(d['prm'][k]))
+          return dev
+        except ValueError:
+          pass        # the other value is not accepted together with the rest: plain construction
       return build.build_leaf(case['dev'])
     except ValueError:
       return None
@@ -345,8 +461,8 @@ class C07(Prop):
   # ---------------------------------------------------------------- T2
   def ops(self, case):
     d = case['dev']
-    if not b_is_int(d):
-      return []
+    if not b_is_int(d) or case.get('alias'):
+      return []       # alias cases are metamorphic (fresh twin), oracle only
     dev = self.build(case)
     if dev is None:
       return []
@@ -380,6 +496,31 @@ class C07(Prop):
         return []
     p = build.price(case['p'])
     x = build.arr(case['x']); y = build.arr(case['y'])
+    if case.get('set0'):
+      self.bump('built with another value, deriv, then setter: ' + '/'.join(case['set0']))
+    if case.get('alias'):
+      al = case['alias']
+      self.bump('caller array edited in place after construction: %s.%s' % (d['cls'], al['param']))
+      twin = build.build_leaf(d)
+      z = n_.array([float(v) for v in self.mix(case, case['thetas'][-1])])
+      diff = None
+      try:
+        for name, pt in (('x', x), ('y', y), ('mix', z)):
+          c0, c1 = float(twin.cost(pt, p)), float(dev.cost(pt, p))
+          g0 = n_.array(twin.deriv(pt, p), dtype=float).reshape(-1); g1 = n_.array(dev.deriv(pt, p), dtype=float).reshape(-1)
+          if not (abs(c0 - c1) <= 1e-9*max(1.0, abs(c0)) or (n_.isnan(c0) and n_.isnan(c1))):
+            diff = 'cost(%s) = %.10g, fresh twin %.10g' % (name, c1, c0); break
+          if g0.shape != g1.shape or not n_.allclose(g0, g1, rtol=1e-9, atol=1e-9, equal_nan=True):
+            diff = 'deriv(%s) = %s, fresh twin %s' % (name, g1.tolist(), g0.tolist()); break
+        if diff is None and not n_.allclose(n_.array(twin.bounds, dtype=float), n_.array(dev.bounds, dtype=float)):
+          diff = 'bounds = %s, fresh twin %s' % (n_.array(dev.bounds).tolist(), n_.array(twin.bounds).tolist())
+      except Exception as e:
+        diff = 'evaluation raises %s(%s) while the fresh twin does not' % (type(e).__name__, e)
+      if diff:
+        return [{'key': {'cls': d['cls'], 'kind': 'aliasing', 'param': al['param']},
+                 'detail': '%s: built with %s given as a numpy array; after the CALLER did `array %s= %s` on its own array the accepted device changed (no validator ran): %s; '
+                           'prm=%s bounds=%s/%s x=%s y=%s p=%s' % (d['cls'], al['param'], '*' if al['op'] == 'mul' else '+', al['v'], diff,
+                                                              json.dumps(strip_private(d['prm']))[:300], d['lb'], d['hb'], case['x'], case['y'], case['p'])}]
     cx, cy = float(dev.cost(x, p)), float(dev.cost(y, p))
     fails = []
     for th in case['thetas']:
@@ -409,6 +550,54 @@ class C07(Prop):
         k = fail_key(d, case)
         fails.append({'key': k, 'detail': '%s: marginal cost not monotone: (deriv(x)-deriv(y)).(x-y) = %.6g < 0; x=%s y=%s p=%s prm=%s bounds=%s/%s [%s]' % (
           d['cls'], mono, case['x'], case['y'], case['p'], json.dumps(strip_private(d['prm']))[:300], d['lb'], d['hb'], branch)})
+    # monotone directional derivative along the segment (DK.C07mono.segment_deriv_monotone): h(tau) = deriv(z_tau).(y - x) must not
+    # decrease; the pieces of a piecewise cost (shortfall active in some slots only) change along the segment
+    if not fails and gx.shape == dx.shape and has_curve(d) and d['cls'] not in ('Device', 'PVDevice', 'CDevice'):
+      taus = [k/8.0 for k in range(9)]
+      try:
+        hs = [float(n_.array(dev.deriv(y + tau*dx, p), dtype=float).reshape(-1).dot(dx)) for tau in taus]
+      except ArithmeticError:
+        hs = []
+      if hs and all(map(n_.isfinite, hs)):
+        scale = max(1.0, max(abs(h) for h in hs))
+        for k in range(8):
+          if hs[k + 1] < hs[k] - 1e-9*scale:
+            fails.append({'key': fail_key(d, case),
+                          'detail': '%s: marginal cost not monotone along the segment y + tau (x - y): deriv(z).(x-y) falls from %.10g at tau=%s to %.10g at tau=%s; x=%s y=%s p=%s prm=%s bounds=%s/%s [%s]%s' % (
+                            d['cls'], hs[k], taus[k], hs[k + 1], taus[k + 1], case['x'], case['y'], case['p'], json.dumps(strip_private(d['prm']))[:300], d['lb'], d['hb'], branch,
+                            (' [built with %s, deriv called once, then re-assigned through the setter]' % case['set0']) if case.get('set0') else '')})
+            break
+    # local form of the same statement: at the midpoint z the Jacobian of the marginal cost (central differences of deriv over the
+    # slots where z is strictly inside the box) must have a positive semidefinite symmetric part; a negative direction v is turned
+    # into a concrete in-box pair (z, z + eps v) and judged by the pair inequality itself
+    if not fails and gx.shape == dx.shape and has_curve(d) and d['cls'] not in ('Device', 'PVDevice', 'CDevice') and d['n'] <= 12:
+      lbv = n_.array([float(F(v)) for v in d['lb']]); hbv = n_.array([float(F(v)) for v in d['hb']])
+      z = (x + y)/2.0
+      free = [i for i in range(d['n']) if lbv[i] + 1e-3 < z[i] < hbv[i] - 1e-3]
+      try:
+        if len(free) >= 2:
+          J = n_.zeros((len(free), len(free)))
+          for b_, j in enumerate(free):
+            e = n_.zeros(d['n']); e[j] = 1e-4
+            col = (n_.array(dev.deriv(z + e, p), dtype=float).reshape(-1) - n_.array(dev.deriv(z - e, p), dtype=float).reshape(-1))/2e-4
+            J[:, b_] = col[free]
+          if n_.isfinite(J).all():
+            w, V = n_.linalg.eigh((J + J.T)/2)
+            if w[0] < -1e-6*max(1.0, float(n_.abs(J).max())):
+              v = n_.zeros(d['n']); v[free] = V[:, 0]
+              room = min(min((hbv[i] - z[i]) if v[i] > 0 else (z[i] - lbv[i]) for i in free if v[i] != 0), 1.0)
+              u = z + 0.5*room*v/max(1e-12, float(n_.abs(v).max()))
+              gu = n_.array(dev.deriv(u, p), dtype=float).reshape(-1); gz = n_.array(dev.deriv(z, p), dtype=float).reshape(-1)
+              mono = float((gu - gz).dot(u - z)); nd = float(n_.linalg.norm(u - z))
+              scale = max(1.0, float(n_.linalg.norm(gu))*nd, float(n_.linalg.norm(gz))*nd)
+              if n_.isfinite(mono) and mono < -1e-9*scale:
+                fails.append({'key': fail_key(d, case),
+                              'detail': '%s: marginal cost not monotone: (deriv(u)-deriv(z)).(u-z) = %.6g < 0 for the in-bounds flows z=%s u=%s (z is the midpoint of x, y; u-z the most negative '
+                                        'direction of the symmetrised Jacobian of deriv, eigenvalue %.4g); p=%s prm=%s bounds=%s/%s [%s]%s' % (
+                                          d['cls'], mono, z.tolist(), u.tolist(), w[0], case['p'], json.dumps(strip_private(d['prm']))[:300], d['lb'], d['hb'], branch,
+                                          (' [built with %s, deriv called once, then re-assigned through the setter]' % case['set0']) if case.get('set0') else '')})
+      except ArithmeticError:
+        pass
     if fails:
       self.bump('nonconvex found ' + branch)
     return fails[:1]
